@@ -1,14 +1,90 @@
-import Aurora.Model.Depth
+import Aurora.Lemmas.Depth
+/-!
+# C22 — Neighbourhood depth is consistent with the peer set
+
+Theorems about `Aurora.Topo.recalcDepth` (Model/Depth.lean), the transcription of
+`kademlia.recalcDepth` after the two `fix:` commits.  `bins : List (List Bool)` is the connected
+`PSlice` (bin by bin, slice order) with one reachability flag per peer; all statements hold for
+every bin list (any number of bins, any sizes), every radius and every threshold record `p`.
+-/
 namespace Aurora.Props.C22
 open Aurora.Topo
 
-/-- clause 1: the depth never exceeds the radius -/
+/-- clause "never exceeds the radius" -/
 theorem C22_depth_le_radius (p : Params) (bins : Bins) (radius : Nat) :
-    recalcDepth p bins radius ≤ radius := by
-  unfold recalcDepth
+    recalcDepth p bins radius ≤ radius :=
+  recalcDepth_le_radius p bins radius
+
+/-- clause "is zero when at most three (`nnLowWatermark`) peers are connected" -/
+theorem C22_depth_zero_small (p : Params) (bins : Bins) (radius : Nat)
+    (h : binsLength bins ≤ p.nnLow) : recalcDepth p bins radius = 0 := by
+  unfold recalcDepth; simp [h]
+
+/-- clause "when positive leaves at least three reachable peers at or beyond it":
+`reachFrom bins d` counts the reachable peers in bins `≥ d`. -/
+theorem C22_depth_leaves_nn (p : Params) (bins : Bins) (radius : Nat)
+    (h : 0 < recalcDepth p bins radius) :
+    p.nnLow ≤ reachFrom bins (recalcDepth p bins radius) := by
+  have hc := recalcDepth_le_cand p bins radius
+  have := candOf_spec p.nnLow bins (by omega)
+  exact Nat.le_trans this (reachFrom_anti bins hc)
+
+/-- clause "never exceeds the shallowest empty bin" (stated for every empty bin `e`) -/
+theorem C22_depth_le_empty_bin (p : Params) (bins : Bins) (radius : Nat) (e : Nat)
+    (he : e < bins.length) (hb : bins.getD e [] = []) : recalcDepth p bins radius ≤ e :=
+  Nat.le_trans (recalcDepth_le_su p bins radius) (suOf_le_empty p.quick bins e he hb)
+
+/-- clause "every shallower bin holds at least the quick-saturation number of reachable peers"
+(this is the clause the unchanged code violated; `reachIn bins b` = reachable peers of bin `b`) -/
+theorem C22_shallower_bins_saturated (p : Params) (bins : Bins) (radius : Nat) (b : Nat)
+    (hb : b < recalcDepth p bins radius) : p.quick ≤ reachIn bins b :=
+  suOf_saturated p.quick bins b (Nat.lt_of_lt_of_le hb (recalcDepth_le_su p bins radius))
+
+/-- clause "depends only on the current set": the depth is a function of the per-bin
+(reachable, total) counts -/
+theorem C22_depth_depends_on_counts (p : Params) (bins bins' : Bins) (radius : Nat)
+    (h : bins.map binSummary = bins'.map binSummary) :
+    recalcDepth p bins radius = recalcDepth p bins' radius :=
+  recalcDepth_congr p bins bins' radius h
+
+/-- clause "not on the order of connections": connection / disconnection order only decides the
+slice order inside each bin; any bin-wise permutation gives the same depth -/
+theorem C22_depth_order_independent (p : Params) (bins bins' : Bins) (radius : Nat)
+    (h : BinsPerm bins bins') : recalcDepth p bins radius = recalcDepth p bins' radius :=
+  recalcDepth_congr p bins bins' radius (summary_of_perm bins bins' h)
+
+/-- the thresholds the node really runs with (source initialisers regenerated from /repo, then
+`kademlia.New`'s derivation from `Options.BinMaxPeers`): the watermark is the "three" of the
+statement and the quick-saturation number is positive, so the saturation clause says something. -/
+theorem C22_thresholds (binMax : Nat) :
+    (Params.default.withBinMax binMax).nnLow = 3 ∧ 0 < (Params.default.withBinMax binMax).quick := by
+  have hn : Params.default.nnLow = 3 := by decide
+  have hq : 0 < Params.default.quick := by decide
+  unfold Params.withBinMax
   split
-  · omega
-  · simp only []
+  · refine ⟨hn, ?_⟩
+    show 0 < _ / 5
     split <;> split <;> omega
+  · exact ⟨hn, hq⟩
+
+/-! ### non-vacuity / regression examples (thresholds 3 / 4) -/
+
+private def r (n : Nat) : List Bool := List.replicate n true
+private def u (n : Nat) : List Bool := List.replicate n false
+
+/-- DESIGN §7: bins 0:4 reachable, 1:1 unreachable, 2:4 reachable, 3:3 reachable.  The unchanged
+code answered 3; bin 1 holds no reachable peer, so the depth is 1. -/
+example : recalcDepth Params.default [r 4, u 1, r 4, r 3] 31 = 1 := by decide
+example : recalcDepth Params.default [r 4, r 4, r 4, r 3] 31 = 3 := by decide
+example : recalcDepth Params.default [r 4, r 4, r 4, r 3] 2 = 2 := by decide
+example : recalcDepth Params.default [r 4, r 4, [], r 3] 31 = 2 := by decide
+example : recalcDepth Params.default [r 1, r 1, r 1] 31 = 0 := by decide
+/-- hypotheses of `C22_depth_leaves_nn` / `C22_shallower_bins_saturated` are satisfiable -/
+example : 0 < recalcDepth Params.default [r 4, r 4 ++ u 2, r 2 ++ u 1 ++ r 1] 31 := by decide
+/-- hypothesis of `C22_depth_le_empty_bin` -/
+example : (2 : Nat) < [r 4, r 4, [], r 3].length ∧ [r 4, r 4, [], r 3].getD 2 [] = [] := by decide
+/-- hypothesis of `C22_depth_order_independent` -/
+example : BinsPerm [[true, false], [false, true, true]] [[false, true], [true, true, false]] :=
+  .cons (List.Perm.swap _ _ _) (.cons (by decide) .nil)
 
 end Aurora.Props.C22
